@@ -47,7 +47,7 @@ var vocab = map[string]map[string]int{
 
 func runHist(ch *simrt.Chooser, opt Options) RunResult {
 	res := RunResult{Counters: map[string]int{}}
-	cfg := simrt.Config{MaxSteps: 20000, KeepTrace: false}
+	cfg := simrt.Config{MaxSteps: 2000000, KeepTrace: false}
 	cfg.Policy = simrt.Policy(ch.Draw("policy", int(simrt.NumPolicies)))
 	cfg.SwitchPermille = []int{200, 500, 1000}[ch.Draw("switch-rate", 3)]
 	cfg.PCTDepth = 1 + ch.Draw("pct-depth", 3)
